@@ -35,6 +35,8 @@
 package main
 
 import (
+	"bytes"
+	"context"
 	"encoding/json"
 	"errors"
 	"fmt"
@@ -111,6 +113,89 @@ type c13Server struct {
 	client *http.Client
 	next   int                 // unique update values
 	rel    map[int]map[int]int // producer -> parameters it depends on (path counts)
+
+	pgate    *c13Gate // blocks Process() of a producer (S5)
+	prods    []int    // the ordinary producers (p, p1, p10)
+	seqProds []int    // prods + rows
+	rows     int      // node of producer "rows": R rows "<k> <i>\n"
+	broken   int      // node of producer "broken": Write fails after 100 rows (stimulus only, never in a history)
+	R        int
+
+	malformed200  atomic.Int64 // rows downloads answered 200 with a body that is not R rows of one k
+	malformedHead atomic.Int64 // rows downloads whose response head was garbage ("malformed ...")
+}
+
+const (
+	c13ModeRows   = 1
+	c13ModeBroken = 2
+	c13Foreign    = 999999996 // response token value for a 200 that is not one consistent artifact
+)
+
+// the many-row artifact: R rows "<k> <i>\n", written row by row like the mesh writers do
+type c13RowsArt struct{ k, n int }
+
+func (a c13RowsArt) Mime() string { return "text/plain" }
+func (a c13RowsArt) Write(w io.Writer) error {
+	buf := make([]byte, 0, 32)
+	for i := 0; i < a.n; i++ {
+		buf = strconv.AppendInt(buf[:0], int64(a.k), 10)
+		buf = append(buf, ' ')
+		buf = strconv.AppendInt(buf, int64(i), 10)
+		buf = append(buf, '\n')
+		if _, err := w.Write(buf); err != nil {
+			return err
+		}
+	}
+	return nil
+}
+
+// the artifact that cannot be serialized: 100 rows, then an error (-> HTTP 500)
+type c13BrokenArt struct{ k int }
+
+func (a c13BrokenArt) Mime() string { return "text/plain" }
+func (a c13BrokenArt) Write(w io.Writer) error {
+	if err := (c13RowsArt{k: a.k, n: 100}).Write(w); err != nil {
+		return err
+	}
+	return errors.New("c13: this artifact cannot be serialized")
+}
+
+// c13ParseRows: the k of a body that is exactly R rows "<k> <i>\n", i = 0,1,2,.., all with the same k
+func c13ParseRows(data []byte, R int) (int, bool) {
+	num := func(b []byte) (int, bool) {
+		if len(b) == 0 || len(b) > 12 {
+			return 0, false
+		}
+		n := 0
+		for _, ch := range b {
+			if ch < '0' || ch > '9' {
+				return 0, false
+			}
+			n = n*10 + int(ch-'0')
+		}
+		return n, true
+	}
+	k, i, pos := -1, 0, 0
+	for pos < len(data) {
+		nl := bytes.IndexByte(data[pos:], '\n')
+		if nl < 0 {
+			return 0, false
+		}
+		line := data[pos : pos+nl]
+		pos += nl + 1
+		sp := bytes.IndexByte(line, ' ')
+		if sp < 0 {
+			return 0, false
+		}
+		kk, ok1 := num(line[:sp])
+		ii, ok2 := num(line[sp+1:])
+		if !ok1 || !ok2 || ii != i || (k >= 0 && kk != k) {
+			return 0, false
+		}
+		k = kk
+		i++
+	}
+	return k, i == R
 }
 
 // a fresh port per server (never a fixed one: concurrent checks must not collide); "" = cannot listen
@@ -160,10 +245,29 @@ func c13StartServer(c *Ctx) *c13Server {
 	for tries := 0; nprod(g) < 2 || (!hasPartial(g) && tries < 12); tries++ {
 		g = c13GenGraph(c)
 	}
-	s := &c13Server{c: c, g: g, gate: c13NewGate(), next: 1000, rel: map[int]map[int]int{}}
+	// two more producers on every server: `rows` (big multi-row body) and `broken` (Write fails);
+	// for the model both are ordinary S nodes over two non-producer nodes
+	var pool []int
+	for i, d := range g {
+		if !d.prod {
+			pool = append(pool, i)
+		}
+	}
+	R := 20000 + c.Rng.Intn(40001)
+	rowsNode, brokenNode := len(g), len(g)+1
+	g = append(g,
+		c13Desc{salt: 1 + c.Rng.Intn(1000), sc: []int{pool[c.Rng.Intn(len(pool))], pool[c.Rng.Intn(len(pool))]}, prod: true, name: "rows", mode: c13ModeRows, rowsN: R},
+		c13Desc{salt: 1 + c.Rng.Intn(1000), sc: []int{pool[c.Rng.Intn(len(pool))], pool[c.Rng.Intn(len(pool))]}, prod: true, name: "broken", mode: c13ModeBroken})
+	s := &c13Server{c: c, g: g, gate: c13NewGate(), pgate: c13NewGate(), next: 1000, rel: map[int]map[int]int{}, rows: rowsNode, broken: brokenNode, R: R}
 	files := map[string]nodes.NodeOutput[artifact.Artifact]{}
 	parPrefix := fmt.Sprintf("par-%d-%d-", os.Getpid(), c13ServerSerial) // recognisable in /schema: this is OUR server
-	s.b = c13BuildOpt(g, c13BuildOptions{prefixNames: true, files: files, gate: s.gate, parPrefix: parPrefix})
+	s.b = c13BuildOpt(g, c13BuildOptions{prefixNames: true, files: files, gate: s.gate, pgate: s.pgate, parPrefix: parPrefix})
+	for _, p := range s.b.prods {
+		if g[p].mode == 0 {
+			s.prods = append(s.prods, p)
+		}
+	}
+	s.seqProds = append(append([]int{}, s.prods...), s.rows)
 	memo := map[int]map[int]int{}
 	for _, p := range s.b.prods {
 		s.rel[p] = c13Paths(g, p, memo)
@@ -267,9 +371,11 @@ func (s *c13Server) probe(timeout time.Duration) ([]byte, int, error) {
 	return data, resp.StatusCode, err
 }
 
-func (s *c13Server) raw(method, path, body string) ([]byte, int, error) {
+// rawc: one request through client cl.  headErr = no (usable) response head arrived; bodyErr = the head
+// arrived (status known) but the body could not be read to its end.
+func (s *c13Server) rawc(cl *http.Client, method, path, body string) (data []byte, status int, headErr, bodyErr error) {
 	if c13ForceUnavailable == "midrun" && c13Requests.Add(1) > 40 {
-		return nil, 0, errors.New("forced by C13_HTTP_FORCE_UNAVAILABLE")
+		return nil, 0, errors.New("forced by C13_HTTP_FORCE_UNAVAILABLE"), nil
 	}
 	var rd io.Reader
 	if method == http.MethodPost {
@@ -277,22 +383,50 @@ func (s *c13Server) raw(method, path, body string) ([]byte, int, error) {
 	}
 	req, err := http.NewRequest(method, s.base+path, rd)
 	if err != nil {
-		return nil, 0, err
+		return nil, 0, err, nil
 	}
-	resp, err := s.client.Do(req)
+	resp, err := cl.Do(req)
 	if err != nil {
-		return nil, 0, err
+		return nil, 0, err, nil
 	}
 	defer resp.Body.Close()
-	data, err := io.ReadAll(resp.Body)
-	return data, resp.StatusCode, err
+	data, err = io.ReadAll(resp.Body)
+	return data, resp.StatusCode, nil, err
+}
+
+func (s *c13Server) raw(method, path, body string) ([]byte, int, error) {
+	data, status, herr, berr := s.rawc(s.client, method, path, body)
+	if herr != nil {
+		return nil, 0, herr
+	}
+	return data, status, berr
+}
+
+// transport-level failure of request k: a client timeout while the server still answers the probe is the
+// implementation hanging (exit 3); everything else is the environment
+func (s *c13Server) transportFailure(k c13Call, err error) (string, int) {
+	var ne net.Error
+	timedOut := errors.As(err, &ne) && ne.Timeout()
+	if timedOut && !c13HTTPDown() {
+		if _, st, perr := s.probe(2 * time.Second); perr == nil && st == 200 {
+			// the server answers, this request does not: the implementation hangs (a lock left held)
+			c13Fatal("request %s got no response within the client timeout while the server still answers GET /schema (deadlock?): %v", k.String(), err)
+		}
+	}
+	c13EnvFail("transport-midrun", "request %s: %v", k.String(), err)
+	return "env", -1
 }
 
 // do performs one call over HTTP; the response token and the HTTP status.  ("env", -1) = environment
 // failure (recorded in c13HTTPEnv; once that is set nothing is sent any more).
-func (s *c13Server) do(k c13Call) (string, int) {
+func (s *c13Server) do(k c13Call) (string, int) { return s.doc(s.client, k) }
+
+func (s *c13Server) doc(cl *http.Client, k c13Call) (string, int) {
 	if c13HTTPDown() {
 		return "env", -1
+	}
+	if k.kind == 'a' && k.p == s.rows {
+		return s.doRows(cl, k)
 	}
 	id, name := "Node-"+itoa(c13Unknown), c13UnknownNames[k.v%len(c13UnknownNames)]
 	if name == "" {
@@ -303,26 +437,20 @@ func (s *c13Server) do(k c13Call) (string, int) {
 	}
 	var body []byte
 	var status int
-	var err error
+	var herr, berr error
 	switch k.kind {
 	case 'u', 'b':
-		body, status, err = s.raw(http.MethodPost, "/parameter/value/"+id, string(k.payload()))
+		body, status, herr, berr = s.rawc(cl, http.MethodPost, "/parameter/value/"+id, string(k.payload()))
 	case 'd':
-		body, status, err = s.raw(http.MethodGet, "/parameter/value/"+id, "")
+		body, status, herr, berr = s.rawc(cl, http.MethodGet, "/parameter/value/"+id, "")
 	default:
-		body, status, err = s.raw(http.MethodGet, "/producer/value/"+strings.ReplaceAll(name, " ", "%20"), "")
+		body, status, herr, berr = s.rawc(cl, http.MethodGet, "/producer/value/"+strings.ReplaceAll(name, " ", "%20"), "")
 	}
-	if err != nil {
-		var ne net.Error
-		timedOut := errors.As(err, &ne) && ne.Timeout()
-		if timedOut && !c13HTTPDown() {
-			if _, st, perr := s.probe(2 * time.Second); perr == nil && st == 200 {
-				// the server answers, this request does not: the implementation hangs (a lock left held)
-				c13Fatal("request %s got no response within the client timeout while the server still answers GET /schema (deadlock?): %v", k.String(), err)
-			}
-		}
-		c13EnvFail("transport-midrun", "request %s: %v", k.String(), err)
-		return "env", -1
+	if herr != nil {
+		return s.transportFailure(k, herr)
+	}
+	if berr != nil {
+		return s.transportFailure(k, berr)
 	}
 	if status != 200 {
 		return "err", status
@@ -335,6 +463,35 @@ func (s *c13Server) do(k c13Call) (string, int) {
 		return fmt.Sprintf("bad:%x", body), status
 	}
 	return "v " + itoa(n), status
+}
+
+// doRows: download of the many-row producer, canonicalised at return time:
+//
+//	200 and exactly R rows "<k> <i>", i = 0,1,2,.., one k          -> `v k`
+//	200 and anything else (foreign rows, truncated, empty, body broke off / malformed chunks) -> `v 999999996`
+//	a response head that is garbage ("malformed HTTP response / MIME header": bytes of another response
+//	where the status line should be — only a server writing into the wrong connection produces that)    -> `v 999999996`
+//	non-200                                                        -> `err`  (the model never answers err to an artifact call)
+//	no response head at all (refused / reset / EOF / timeout)      -> environment (or deadlock), as for every request
+func (s *c13Server) doRows(cl *http.Client, k c13Call) (string, int) {
+	data, status, herr, berr := s.rawc(cl, http.MethodGet, "/producer/value/rows", "")
+	if herr != nil {
+		if strings.Contains(herr.Error(), "malformed") {
+			s.malformedHead.Add(1)
+			return "v " + itoa(c13Foreign), 200
+		}
+		return s.transportFailure(k, herr)
+	}
+	if status != 200 {
+		return "err", status
+	}
+	if berr == nil {
+		if kk, ok := c13ParseRows(data, s.R); ok {
+			return "v " + itoa(kk), status
+		}
+	}
+	s.malformed200.Add(1)
+	return "v " + itoa(c13Foreign), status
 }
 
 // graph description with the CURRENT parameter values (read sequentially, the server is quiescent)
@@ -367,14 +524,15 @@ func c13HTTPSeq(s *c13Server) {
 		return
 	}
 	b := s.b
+	sp := s.seqProds // the ordinary producers and `rows` (never `broken`: the model has no failing artifacts)
 	K := 4 + c.Rng.Intn(21)
 	var queue []c13Call
 	var calls, resps []string
 	afterRejected := func(p int) {
 		queue = append(queue, c13Call{kind: 'd', p: p})
-		for _, pi := range c.Rng.Perm(len(b.prods)) {
-			if s.rel[b.prods[pi]][p] > 0 {
-				queue = append(queue, c13Call{kind: 'a', p: b.prods[pi]})
+		for _, pi := range c.Rng.Perm(len(sp)) {
+			if s.rel[sp[pi]][p] > 0 {
+				queue = append(queue, c13Call{kind: 'a', p: sp[pi]})
 			}
 		}
 	}
@@ -408,19 +566,19 @@ func c13HTTPSeq(s *c13Server) {
 					k.v = s.unique()
 				}
 				if k.kind == 'u' && c.Rng.Intn(3) == 0 {
-					for _, pi := range c.Rng.Perm(len(b.prods)) {
-						queue = append(queue, c13Call{kind: 'a', p: b.prods[pi]})
+					for _, pi := range c.Rng.Perm(len(sp)) {
+						queue = append(queue, c13Call{kind: 'a', p: sp[pi]})
 					}
-					queue = append(queue, c13Call{kind: 'a', p: b.prods[c.Rng.Intn(len(b.prods))]})
+					queue = append(queue, c13Call{kind: 'a', p: sp[c.Rng.Intn(len(sp))]})
 				}
 			case r < 47:
 				k.kind, k.p = 'd', b.pars[c.Rng.Intn(len(b.pars))]
 			case r < 92:
-				k.kind, k.p = 'a', b.prods[c.Rng.Intn(len(b.prods))]
+				k.kind, k.p = 'a', sp[c.Rng.Intn(len(sp))]
 			case r < 94:
-				k.kind, k.p, k.v = 'u', b.prods[c.Rng.Intn(len(b.prods))], s.unique() // not a parameter
+				k.kind, k.p, k.v = 'u', sp[c.Rng.Intn(len(sp))], s.unique() // not a parameter
 			case r < 96:
-				k.kind, k.p = 'd', b.prods[c.Rng.Intn(len(b.prods))]
+				k.kind, k.p = 'd', sp[c.Rng.Intn(len(sp))]
 			case r < 98:
 				k.kind, k.p, k.v = 'a', c13Unknown, c.Rng.Intn(1000)
 			case r < 99:
@@ -444,7 +602,7 @@ func c13HTTPSeq(s *c13Server) {
 			c.Note("http.seq.unknown-" + string(k.kind))
 		case k.kind == 'u' && resp == "ok":
 			cur[k.p] = k.v
-			for _, p := range b.prods {
+			for _, p := range sp {
 				updated[p] = true
 			}
 		case k.kind == 'a':
@@ -474,9 +632,11 @@ type c13HTTPHist struct {
 }
 
 // call: tInv immediately before the request is sent, tResp immediately after the body has been read
-func (h *c13HTTPHist) call(tid int, k c13Call) string {
+func (h *c13HTTPHist) call(tid int, k c13Call) string { return h.callc(h.s.client, tid, k) }
+
+func (h *c13HTTPHist) callc(cl *http.Client, tid int, k c13Call) string {
 	tInv := h.ctr.Add(1)
-	resp, status := h.s.do(k)
+	resp, status := h.s.doc(cl, k)
 	tResp := h.ctr.Add(1)
 	h.mu.Lock()
 	h.recs = append(h.recs, c13Rec{tInv: tInv, tResp: tResp, tid: tid, call: k, resp: resp})
@@ -592,7 +752,7 @@ func (h *c13HTTPHist) s1(p int) {
 	h.call(1, c13Call{kind: 'u', p: q, v: s.unique()})
 	h.releaseAll(done, held)
 	h.call(2, c13Call{kind: 'a', p: p})
-	h.call(3, c13Call{kind: 'a', p: s.b.prods[s.c.Rng.Intn(len(s.b.prods))]})
+	h.call(3, c13Call{kind: 'a', p: s.prods[s.c.Rng.Intn(len(s.prods))]})
 	h.call(3, c13Call{kind: 'a', p: p})
 	q2, _ := s.dependsOn(p, true)
 	h.call(1, c13Call{kind: 'u', p: q2, v: s.unique()})
@@ -654,7 +814,7 @@ func (h *c13HTTPHist) s4(p, q int) {
 
 func c13HTTPSchedules(s *c13Server) {
 	c := s.c
-	prods := s.b.prods
+	prods := s.prods
 	pick2 := func() (int, int) {
 		i := c.Rng.Intn(len(prods))
 		j := (i + 1 + c.Rng.Intn(len(prods)-1)) % len(prods)
@@ -715,9 +875,9 @@ func c13HTTPRandom(s *c13Server) {
 			case r < 55:
 				k = c13Call{kind: 'd', p: s.b.pars[c.Rng.Intn(len(s.b.pars))]}
 			case r < 97:
-				k = c13Call{kind: 'a', p: s.b.prods[c.Rng.Intn(len(s.b.prods))]}
+				k = c13Call{kind: 'a', p: s.prods[c.Rng.Intn(len(s.prods))]}
 			default:
-				k = c13Call{kind: 'd', p: s.b.prods[c.Rng.Intn(len(s.b.prods))]} // not a parameter -> 500
+				k = c13Call{kind: 'd', p: s.prods[c.Rng.Intn(len(s.prods))]} // not a parameter -> 500
 			}
 			plan[t] = append(plan[t], k)
 		}
@@ -746,20 +906,301 @@ func c13HTTPRandom(s *c13Server) {
 }
 
 // c13HTTP: 1 + N/300 servers; per server 3 sequential lines, the schedules S1 S2 S3 S4 S1x3, 2 random histories
+// ---- S5: two updates queued behind a held lock, then the loser is sent again ------------------------------
+//
+// Round (13 recorded requests): u q v0 (P outdated) | arm the PROCESS gate, download A of P enters
+// Process() and blocks there HOLDING producerLock | client X POSTs v1 to q and queues for the lock; client
+// Y POSTs v2 to q around the moment A is released (offset -40..+160 us drawn per round) | A, X, Y answered | d q -> cur | POST the OTHER value | d q and a P
+// must show it | POST it once more (same as current: must stay) ; d q | two clients POST the third value
+// (the one that is not current) concurrently ; d q.  Which of X, Y wins is not controlled: both orders are
+// linearizable.  Three rounds per history, histories until the time budget is used up.
+func (h *c13HTTPHist) s5round(p, q int) {
+	s := h.s
+	h.call(9, c13Call{kind: 'u', p: q, v: s.unique()})
+	s.pgate.armed.Store(1)
+	a := h.async(0, c13Call{kind: 'a', p: p})
+	held := false
+	for !held && len(a) == 0 {
+		select {
+		case <-s.pgate.entered:
+			held = true
+		default:
+			time.Sleep(100 * time.Microsecond)
+		}
+	}
+	s.pgate.armed.Store(0)
+	if !held {
+		select {
+		case <-s.pgate.entered: // entered just before it completed? cannot be: it blocks; be safe
+			held = true
+		default:
+			s.c.Note("http.S5.download-did-not-block-in-Process")
+		}
+	}
+	// X is sent first and parks behind the held lock.  Y is sent so that it reaches the handler around the
+	// moment the lock is released: then the parked X is being woken while Y arrives — either may get the
+	// lock first (a mutex does not hand over in arrival order), whatever the order in which the two
+	// handlers took the messages.  The offset between launching Y and releasing A is drawn per round.
+	v1, v2 := s.unique(), s.unique()
+	spin := func(d time.Duration) {
+		for t0 := time.Now(); time.Since(t0) < d; {
+		}
+	}
+	x := h.async(1, c13Call{kind: 'u', p: q, v: v1})
+	time.Sleep(time.Duration(200+s.c.Rng.Intn(300)) * time.Microsecond)
+	off := time.Duration(s.c.Rng.Intn(200)-40) * time.Microsecond
+	var y chan string
+	if off >= 0 {
+		y = h.async(2, c13Call{kind: 'u', p: q, v: v2})
+		spin(off)
+		if held {
+			s.pgate.release <- struct{}{}
+		}
+	} else {
+		if held {
+			s.pgate.release <- struct{}{}
+		}
+		spin(-off)
+		y = h.async(2, c13Call{kind: 'u', p: q, v: v2})
+	}
+	<-a
+	<-x
+	<-y
+	cur := h.call(3, c13Call{kind: 'd', p: q})
+	other, third := v1, v2
+	if cur == "v "+itoa(v1) {
+		other, third = v2, v1
+	}
+	h.call(5, c13Call{kind: 'u', p: q, v: other})
+	h.call(4, c13Call{kind: 'd', p: q})
+	h.call(4, c13Call{kind: 'a', p: p})
+	h.call(5, c13Call{kind: 'u', p: q, v: other}) // the value it already has
+	h.call(4, c13Call{kind: 'd', p: q})
+	z1 := h.async(6, c13Call{kind: 'u', p: q, v: third})
+	z2 := h.async(7, c13Call{kind: 'u', p: q, v: third})
+	<-z1
+	<-z2
+	h.call(4, c13Call{kind: 'd', p: q})
+}
+
+func c13HTTPS5(s *c13Server, budget time.Duration) {
+	c := s.c
+	deadline := time.Now().Add(budget)
+	for time.Now().Before(deadline) && !c13HTTPDown() {
+		gstr, _ := s.snapshot()
+		if c13HTTPDown() {
+			return
+		}
+		h := &c13HTTPHist{s: s}
+		p := s.prods[c.Rng.Intn(len(s.prods))]
+		q, _ := s.dependsOn(p, true)
+		for r := 0; r < 3; r++ {
+			h.s5round(p, q)
+		}
+		if c13HTTPDown() {
+			return
+		}
+		c.Note("http.S5.histories")
+		c.notes["http.S5.rounds"] += 3
+		h.emit(gstr)
+	}
+}
+
+// small concurrent histories with REPEATED values (<= 12 requests): a few clients POST values from a set
+// of 2..3 to one parameter at the same time; at the quiescent point one client POSTs a value of the set
+// and reads it back.  Twice.
+func c13HTTPRepeated(s *c13Server) {
+	c := s.c
+	gstr, _ := s.snapshot()
+	if c13HTTPDown() {
+		return
+	}
+	h := &c13HTTPHist{s: s}
+	q := s.b.pars[c.Rng.Intn(len(s.b.pars))]
+	set := []int{s.unique(), s.unique()}
+	if c.Rng.Intn(2) == 0 {
+		set = append(set, s.unique())
+	}
+	phase := func(clients, maxPosts int) {
+		plan := make([][]int, clients)
+		for t := range plan {
+			for j := 0; j < 1+c.Rng.Intn(maxPosts); j++ {
+				plan[t] = append(plan[t], set[c.Rng.Intn(len(set))])
+			}
+		}
+		start := make(chan struct{})
+		var wg sync.WaitGroup
+		for t := range plan {
+			wg.Add(1)
+			go func(t int) {
+				defer wg.Done()
+				<-start
+				for _, v := range plan[t] {
+					h.call(t, c13Call{kind: 'u', p: q, v: v})
+				}
+			}(t)
+		}
+		close(start)
+		wg.Wait()
+		// quiescent: a value of the set is posted and must be what is read next
+		h.call(8, c13Call{kind: 'u', p: q, v: set[c.Rng.Intn(len(set))]})
+		h.call(8, c13Call{kind: 'd', p: q})
+	}
+	phase(2+c.Rng.Intn(2), 2) // <= 6 + 2
+	phase(2, 1)               // <= 2 + 2
+	if c13HTTPDown() {
+		return
+	}
+	c.Note("http.repeated-value-histories")
+	h.emit(gstr)
+}
+
+// ---- S6: failing / abandoned downloads, overlapping downloads of the many-row producer -----------------
+//
+// Window (<= 38 recorded requests, one history): 4..6 clients (own connections) download `rows` 5 times
+// each, one client POSTs 8 unique values to a parameter `rows` depends on (~1 ms apart); meanwhile a
+// stimulus client keeps downloading `broken` (500) and starting downloads of `rows` that it abandons after
+// 512 bytes.  The stimulus requests are NOT events of the history (the model has no failing artifacts).
+// Windows start at a quiescent point (parameter values read), until the time budget is used up.
+func c13HTTPS6(s *c13Server, budget time.Duration) {
+	c := s.c
+	deadline := time.Now().Add(budget)
+	q, _ := s.dependsOn(s.rows, true)
+	newClient := func() *http.Client {
+		return &http.Client{Timeout: 60 * time.Second, Transport: &http.Transport{MaxIdleConnsPerHost: 2, IdleConnTimeout: 5 * time.Second}}
+	}
+	var dl []*http.Client
+	for i := 0; i < 6; i++ {
+		dl = append(dl, newClient())
+	}
+	stim := newClient()
+	defer func() {
+		for _, cl := range append(dl, stim) {
+			cl.CloseIdleConnections()
+		}
+	}()
+	var broken500, abandoned atomic.Int64
+	for time.Now().Before(deadline) && !c13HTTPDown() {
+		gstr, _ := s.snapshot()
+		if c13HTTPDown() {
+			return
+		}
+		h := &c13HTTPHist{s: s}
+		stop := make(chan struct{})
+		var sg sync.WaitGroup
+		sg.Add(1)
+		go func() {
+			defer sg.Done()
+			for {
+				select {
+				case <-stop:
+					return
+				default:
+				}
+				if c13HTTPDown() {
+					return
+				}
+				// a download that fails in Write
+				if resp, err := stim.Get(s.base + "/producer/value/broken"); err == nil {
+					io.Copy(io.Discard, resp.Body)
+					resp.Body.Close()
+					if resp.StatusCode == 500 {
+						broken500.Add(1)
+					}
+				}
+				// a download the client walks away from
+				ctx, cancel := context.WithCancel(context.Background())
+				if req, err := http.NewRequestWithContext(ctx, http.MethodGet, s.base+"/producer/value/rows", nil); err == nil {
+					if resp, err := stim.Do(req); err == nil {
+						io.ReadFull(resp.Body, make([]byte, 512))
+						cancel()
+						resp.Body.Close()
+						abandoned.Add(1)
+					}
+				}
+				cancel()
+				time.Sleep(time.Millisecond)
+			}
+		}()
+		n := 4 + c.Rng.Intn(3)
+		vals := make([]int, 8)
+		for i := range vals {
+			vals[i] = s.unique()
+		}
+		start := make(chan struct{})
+		var wg sync.WaitGroup
+		for t := 0; t < n; t++ {
+			wg.Add(1)
+			go func(t int) {
+				defer wg.Done()
+				<-start
+				for j := 0; j < 5; j++ {
+					h.callc(dl[t], t, c13Call{kind: 'a', p: s.rows})
+				}
+			}(t)
+		}
+		wg.Add(1)
+		go func() {
+			defer wg.Done()
+			<-start
+			for _, v := range vals {
+				h.call(9, c13Call{kind: 'u', p: q, v: v})
+				time.Sleep(time.Millisecond)
+			}
+		}()
+		close(start)
+		wg.Wait()
+		close(stop)
+		sg.Wait()
+		if c13HTTPDown() {
+			return
+		}
+		c.Note("http.S6.windows")
+		c.notes["http.S6.rows-downloads"] += 5 * n
+		h.emit(gstr)
+	}
+	c.notes["http.S6.broken-500"] += int(broken500.Load())
+	c.notes["http.S6.abandoned"] += int(abandoned.Load())
+}
+
+// time budgets of the time-bounded schedules, whole run (shared evenly by the servers)
+func c13HTTPBudgets(c *Ctx) (s5, s6 time.Duration) {
+	if c.Tier == "thorough" {
+		return 20 * time.Second, 30 * time.Second
+	}
+	return 2 * time.Second, 3 * time.Second
+}
+
 func c13HTTP(c *Ctx) {
 	servers := 1 + c.N/300
+	b5, b6 := c13HTTPBudgets(c)
+	b5, b6 = b5/time.Duration(servers), b6/time.Duration(servers)
+	s5 := func(s *c13Server) { c13HTTPS5(s, b5) }
+	s6 := func(s *c13Server) { c13HTTPS6(s, b6) }
+	rep := func(s *c13Server) {
+		for i := 0; i < 5; i++ {
+			c13HTTPRepeated(s)
+		}
+	}
+	malformed200, malformedHead := 0, 0
 	for i := 0; i < servers && !c13HTTPDown(); i++ {
 		s := c13StartServer(c)
 		if s == nil {
 			break
 		}
-		for _, step := range []func(*c13Server){c13HTTPSeq, c13HTTPSchedules, c13HTTPSeq, c13HTTPRandom, c13HTTPSeq, c13HTTPRandom} {
+		for _, step := range []func(*c13Server){c13HTTPSeq, c13HTTPSchedules, c13HTTPSeq, c13HTTPRandom, s5, c13HTTPSeq, c13HTTPRandom, rep, s6} {
 			if !c13HTTPDown() {
 				step(s)
 			}
 		}
 		s.client.CloseIdleConnections()
+		malformed200 += int(s.malformed200.Load())
+		malformedHead += int(s.malformedHead.Load())
 	}
+	// both must be 0 on a correct server
+	c.notes["http.rows.malformed-200"] += malformed200
+	c.notes["http.rows.malformed-response-head"] += malformedHead
+	c.Note("http.note.requests-to-broken-and-abandoned-downloads-are-stimuli-not-events")
 	if msg := c13HTTPEnv.Load(); msg != nil {
 		kind := (*msg)[:strings.Index(*msg, ":")]
 		c.Note("http.unavailable")
